@@ -13,6 +13,24 @@ CLAIMS = {
             'multi-hyphen ranges) are rare points of an infinite domain.',
             'Trusted: CrossHair string/regex models, z3, the oracle regexes/calendar arithmetic in harness/c13.py. Bounds: see evidence.coverage.bounds_text.',
             'DESIGN.md §5 C13'),
+    'C14': ('other', 'bounded symbolic execution (CrossHair+z3) of is_syntax_valid, _split_syntax and the syntax loop of segment_if.is_valid',
+            'For every note shape (type x position tuple; all shipped note texts in thorough) the real evaluator is run on a segment of symbolic length '
+            'with symbolic presence flags and compared with the X12 definition; routing to element error codes 2/10 is checked on a segment node built '
+            'by the real map loader. All presence patterns and lengths are covered by the solver, not sampled.',
+            'Trusted: CrossHair, z3, the five-line X12 oracle. Positions are shard parameters; composite elements are outside the claim.',
+            'DESIGN.md §5 C14'),
+    'C17': ('other', 'z3/cvc5 regex language + unique-decomposition queries for the path regex; bounded symbolic execution (CrossHair+z3) of X12Path and Segment.set/get',
+            'The path regex of the real class is proved equal to the documented grammar and uniquely decomposable (so its groups are the documented parts); '
+            'the code around it is executed on symbolic choices of loops/components and Segment.set/get on segments with symbolic values against a reference model.',
+            'Trusted: CrossHair, z3, cvc5, the table of representative components (generality of ids/indices rests on the Engine-B queries). Loop ids are concrete-by-choice '
+            'because CrossHair 0.0.110 produced non-replaying counterexamples for == of composed symbolic strings.',
+            'DESIGN.md §5 C17'),
+    'C04': ('model_checking', 'inductive step over the reader state machine: bounded symbolic execution (CrossHair+z3) of _parse_segment/cleanup from an arbitrary invariant state',
+            'Each segment kind is one transition checked from an ARBITRARY state satisfying the representation invariant (symbolic control numbers, seen-id lists, '
+            'counters, HL stack): errors reported == errors the recount predicts and the invariant is re-established, which covers interchanges of any length by induction; '
+            'mis-nested headers/trailers must yield an error by the time all envelopes are closed.',
+            'Trusted: CrossHair, z3, the invariant (base case checked concretely), the recount oracle. Counters <= 3, ids one character, count tokens from 11 classes.',
+            'DESIGN.md §5 C04'),
 }
 
 NOT_YET = 'check not built yet in this round (planned: see DESIGN.md §5)'
